@@ -289,9 +289,9 @@ def kil_guards(ctx: Ctx, py: PyProgram, rs: RustProgram) -> None:
                     if ".active_columns()" in rs_leaves(at["recv"], d):
                         col_ok = True
             if not col_ok:
-                ctx.violation("C14.2/kil-column", key_of(rel, fn.qual, expr_text(a)), "a row bit is OR-ed into the key-input value without the active-column test", f"{rel}:{a['ln']}", guards=texts)
+                ctx.violation("C14.2/kil-column", key_of(rel, fn.qual, f"row bit OR #{sites.index(a) + 1} without the active-column test"), "a row bit is OR-ed into the key-input value without the active-column test", f"{rel}:{a['ln']}", guards=texts)
             if not any("debounced" in t or "pressed" in t for t in texts):
-                ctx.violation("C14.2/kil-state", key_of(rel, fn.qual, expr_text(a) + ":state"), "a row bit is OR-ed without a key-state test", f"{rel}:{a['ln']}", guards=texts)
+                ctx.violation("C14.2/kil-state", key_of(rel, fn.qual, f"row bit OR #{sites.index(a) + 1} without a key-state test"), "a row bit is OR-ed without a key-state test", f"{rel}:{a['ln']}", guards=texts)
             ctx.sample({"site": f"{rel}:{a['ln']}", "fn": fn.qual, "guards": texts})
     ac = rs.fn(KB_RS, "KeyboardMatrix::active_columns")
     fields = {expr_text(f) for f in walk(ac.body) if f.get("k") == "field" and expr_text(f).startswith("self.")}
@@ -527,13 +527,21 @@ def sibling_skeleton(ctx: Ctx, py: PyProgram, rs: RustProgram) -> None:
     gr = cfgmod.build_rs(fn.node, fn.qual)
     rsset = set()
     rsdefs = {k: [v for v in vs if isinstance(v, dict)] for k, vs in rs_defs(fn.body).items()}
+    # the per-key record: the local bound to an element of self.states (whatever it is called) is written `state`
+    recs = [k for k, vs in rsdefs.items() if len(vs) == 1 and "self.states[" in expr_text(vs[0]).replace(" ", "")]
+    ctx.need(len(recs) == 1, f"scan_tick: the per-key state binding was not identified ({recs})")
+    rec = recs[0]
+    rsdefs.pop(rec, None)
+
+    def st_(t: str) -> str:
+        return re.sub(rf"(?<![\w.]){re.escape(rec)}(?=\.)", "state", t)
     for a in walk(fn.body):
-        if a.get("k") in ("assign", "opassign") and expr_text(a["l"]).startswith("state."):
+        if a.get("k") in ("assign", "opassign") and expr_text(a["l"]).startswith(rec + "."):
             node = gr.node_of(a)
             if node is None:
                 continue
-            txt = f"{expr_text(a['l'])} = {expr_text(a['r'])}" if a["k"] == "assign" else f"{expr_text(a['l'])} {a['op']}= {expr_text(a['r'])}"
-            gs = tuple(x for x in (norm_guard(expand(rs_guard_text(q), rsdefs, expr_text)) for q in gr.guards_of(node)) if x)
+            txt = st_(f"{expr_text(a['l'])} = {expr_text(a['r'])}" if a["k"] == "assign" else f"{expr_text(a['l'])} {a['op']}= {expr_text(a['r'])}")
+            gs = tuple(x for x in (norm_guard(st_(expand(rs_guard_text(q), rsdefs, expr_text))) for q in gr.guards_of(node)) if x)
             rsset.add((_NORM.get(txt, txt), for_field(txt, gs)))
     only_py = sorted(pyset - rsset)
     only_rs = sorted(rsset - pyset)
@@ -625,11 +633,11 @@ def debounce_arms_repeat(ctx: Ctx, py: PyProgram, rs: RustProgram) -> None:
     for fn in rs.fns_in(KB_RS):
         if fn.impl_ty != "KeyboardMatrix" or fn.body is None or fn.name in ("load_snapshot", "apply_snapshot", "restore_snapshot"):
             continue
-        sites = [a for a in walk(fn.body) if a.get("k") == "assign" and expr_text(a["l"]) == "state.debounced" and expr_text(a["r"]) == "true"]
+        sites = [a for a in walk(fn.body) if a.get("k") == "assign" and a["l"].get("k") == "field" and a["l"].get("name") == "debounced" and expr_text(a["r"]) == "true"]
         if not sites:
             continue
         g = cfgmod.build_rs(fn.node, fn.qual)
-        arms = [a for a in walk(fn.body) if a.get("k") == "assign" and expr_text(a["l"]) == "state.repeat_ticks" and "repeat_delay" in expr_text(a["r"])]
+        arms = [a for a in walk(fn.body) if a.get("k") == "assign" and a["l"].get("k") == "field" and a["l"].get("name") == "repeat_ticks" and "repeat_delay" in expr_text(a["r"])]
         for st in sites:
             n += 1
             sg = {(expr_text(x), pol) for x, pol, _o in g.guards_of(g.node_of(st)) if isinstance(x, dict)}
